@@ -504,3 +504,47 @@ def fam_gamma_fixed():
                                                          E('a1/li/x', 'a0/li/u', fp(), delay=F(1), spread=F(1, 2))],
                                              "three edges with the same kernel")))
     return out
+
+
+def fam_dde(seed=0, n=10):
+    """C10: past(x, tau) / x(t - tau) terms (several delays per variable, several delayed variables, the delayed
+    variable not being the first state) and delayed edges under an adaptive solver."""
+    rnd = random.Random(seed)
+    out = []
+    for k in range(n):
+        fp = FP()
+        notation = 'call' if k % 2 else 'past'
+        d1, d2 = rnd.choice([F(1, 2), F(3, 4), F(1), F(5, 4)]), rnd.choice([F(3, 8), F(3, 2), F(2), F(1)])
+        variant = k % 4
+        if variant == 0:      # one variable, one delay
+            e1 = X.add(X.mul(X.neg(V('k')), V('x')), X.mul(V('g'), X.call('tanh', X.past('x', V('tau')))))
+            eqs = [('x', 'de', e1)]
+            vars_ = {'x': ('state', fp()), 'k': ('const', fp()), 'g': ('const', fp()), 'tau': ('const', d1)}
+        elif variant == 1:    # second state variable delayed, two delays of it
+            e1 = X.add(X.mul(X.neg(V('k')), V('x')), X.mul(V('g'), X.call('tanh', X.past('z', V('tau')))))
+            e2 = X.sub(V('x'), X.mul(V('z'), X.past('z', V('tau2'))))
+            eqs = [('x', 'de', e1), ('z', 'de', e2)]
+            vars_ = {'x': ('state', fp()), 'z': ('state', fp()), 'k': ('const', fp()), 'g': ('const', fp()),
+                     'tau': ('const', d1), 'tau2': ('const', d2)}
+        elif variant == 2:    # both variables delayed, same delay constant used twice
+            e1 = X.sub(X.past('z', V('tau')), X.mul(V('k'), V('x')))
+            e2 = X.sub(X.mul(V('g'), X.past('x', V('tau'))), V('z'))
+            eqs = [('x', 'de', e1), ('z', 'de', e2)]
+            vars_ = {'x': ('state', fp()), 'z': ('state', fp()), 'k': ('const', fp()), 'g': ('const', fp()),
+                     'tau': ('const', d1)}
+        else:                 # delayed and undelayed occurrence of the same variable in one product, numeric delay
+            e1 = X.add(X.mul(X.neg(V('k')), X.mul(V('x'), X.past('x', C(d2)))), V('g'))
+            eqs = [('x', 'de', e1)]
+            vars_ = {'x': ('state', fp()), 'k': ('const', fp()), 'g': ('const', fp())}
+        op = OpSpec('dd', eqs, vars_, output='x', style={'past': notation})
+        li = op_leaky(fp)
+        li.vars['u'] = ('input', F(0))
+        ops = {'dd': op, 'li': li}
+        nodes = {'n0': NodeSpec(['dd'], {}), 'n1': NodeSpec(['li'], _node_overrides(fp, ops, ['li'])),
+                 'n2': NodeSpec(['li'], _node_overrides(fp, ops, ['li']))}
+        edges = [EdgeSpec('n0/dd/x', 'n1/li/u', fp())]
+        if k % 3 == 0:
+            edges.append(EdgeSpec('n1/li/x', 'n2/li/u', fp(), delay=rnd.choice([F(1), F(3, 4), F(3, 2)])))
+            edges.append(EdgeSpec('n2/li/x', 'n1/li/u', fp(), delay=rnd.choice([F(1, 2), F(1), F(2)])))
+        out.append((f"F10:{seed}:{k}:{notation}:v{variant}", ModelSpec('m', ops, nodes, edges, note="DDE model")))
+    return out
